@@ -357,6 +357,15 @@ def generate(seed, tier="quick"):
         # the later requests are served by a new event loop of the same process
         for request in requests[rnd.randrange(1, n_requests):]:
             request["phase"] = 1
+    if n_requests >= 2 and rnd.random() < 0.04 and len(rc) >= 3:
+        # many evaluations in flight at once, in two event loops of the same process one after the other
+        wide = ("and", ("k", rc[0]), ("or", ("k", rc[1]), ("k", rc[2])))
+        for number, request in enumerate(requests[:2]):
+            request.pop("follow_ups", None)
+            request["op"] = {"op": "valid", "parts": [("MUSS", wide)], "expr": f"Muss {render(wide)}", "has_rc": True,
+                             "as_tree": False}
+            request["phase"] = number
+        profile = rnd.choice(["uniform", "mixed", "yield"])
     if n_requests >= 2 and rnd.random() < 0.3:
         victim = requests[rnd.randrange(1, n_requests)]
         if rnd.random() < 0.5:
